@@ -166,6 +166,13 @@ func (g *gen) wellFormed(size int) *sfeed {
 			// one id a proper prefix of another, the longer continuing with a digit ("TX" / "TX1")
 			out[n-2], out[n-1] = prefix+"X", prefix+"X1"
 		}
+		if n > 1 && g.coin(0.15) {
+			// white space is part of an id: "X" and "X " (and " X") are different ids, and a reference names exactly one of them
+			out[n-1] = out[0] + g.pick([]string{" ", "  ", "\t"})
+			if n > 2 && g.coin(0.5) {
+				out[n-2] = " " + out[0]
+			}
+		}
 		if n > 1 && g.coin(0.12) {
 			// ids are byte strings: two ids that differ only in bytes that are not valid UTF-8 (a Latin-1 export) are different ids
 			out[0], out[1] = prefix+"-St\xe9", prefix+"-St\xe8"
@@ -271,8 +278,15 @@ func (g *gen) wellFormed(size int) *sfeed {
 					seqs[k] += base
 				}
 			}
+			loop := g.coin(0.3) // a shape that returns to points it has passed: equal coordinates under different sequence numbers
+			var prev srow
 			for _, q := range seqs {
-				sh.rows = append(sh.rows, srow{"shape_id": id, "shape_pt_lat": g.decimal(), "shape_pt_lon": g.decimal(), "shape_pt_sequence": g.intSpell(q), "shape_dist_traveled": g.pick([]string{"", "0", "12.5"})})
+				r := srow{"shape_id": id, "shape_pt_lat": g.decimal(), "shape_pt_lon": g.decimal(), "shape_pt_sequence": g.intSpell(q), "shape_dist_traveled": g.pick([]string{"", "0", "12.5"})}
+				if loop && prev != nil && g.coin(0.5) {
+					r["shape_pt_lat"], r["shape_pt_lon"], r["shape_dist_traveled"] = prev["shape_pt_lat"], prev["shape_pt_lon"], prev["shape_dist_traveled"]
+				}
+				sh.rows = append(sh.rows, r)
+				prev = r
 			}
 		}
 		g.r.Shuffle(len(sh.rows), func(i, j int) { sh.rows[i], sh.rows[j] = sh.rows[j], sh.rows[i] })
@@ -397,7 +411,8 @@ func (g *gen) presentation(f *sfeed) *presentation {
 		// unknown extra files, including ones that merely share a base name with a supported table
 		p.members = append(p.members, g.pick([]string{"feed_info.txt", "fare_rules.txt", "README", "attributions.txt",
 			"archive/2023/stops.txt", "drafts/transfers.txt", "old/stop_times.txt", "backup/agency.txt", "x/calendar_dates.txt", "Stops.txt", "stops.txt.bak",
-			"archive/shapes.txt", "gtfs/frequencies.txt", "feed/calendar.txt", "a/b/c/transfers.txt", "old/shapes.txt"}))
+			"archive/shapes.txt", "gtfs/frequencies.txt", "feed/calendar.txt", "a/b/c/transfers.txt", "old/shapes.txt",
+			"./stops.txt", "\\agency.txt", "a/../trips.txt", "/routes.txt", "./stop_times.txt", "x/../../calendar_dates.txt", "//stops.txt"}))
 	}
 	g.r.Shuffle(len(p.members), func(i, j int) { p.members[i], p.members[j] = p.members[j], p.members[i] })
 	return p
@@ -464,7 +479,9 @@ func renderFeed(g *gen, p *presentation, f *sfeed) []member {
 			ms = append(ms, member{name, renderTable(g, p, t)})
 		} else {
 			content := "whatever,content\n1,2\n"
-			if base := name[strings.LastIndex(name, "/")+1:]; g != nil && base != name && staticCols[base] != nil && g.coin(0.7) {
+			base := name[strings.LastIndex(name, "/")+1:]
+			base = strings.TrimPrefix(base, "\\")
+			if g != nil && base != name && staticCols[base] != nil && g.coin(0.7) {
 				// an extra member in a sub-folder that is, by its content, a perfectly good table of the same base name
 				// (ids S0.., T0.. coincide with the feed's own): it is still an unknown extra file and contributes nothing
 				if t := g.wellFormed(4).table(base); t != nil {
